@@ -1,6 +1,7 @@
 package main
 
 import (
+	"golang.org/x/tools/go/ssa"
 	"runtime/debug"
 	"encoding/json"
 	"flag"
@@ -108,12 +109,35 @@ func main() {
 			fs := w.specs.Funcs[k]
 			rep := funcReport{Function: shortName(k)}
 			fn := w.funcs[k]
+			var specClosure *ssa.Function
+			if fn == nil {
+				// specialisation "pkg.f$pkglocal.closure": f verified with its function parameter bound to that closure
+				for j := 0; j < len(k); j++ {
+					if k[j] != '$' {
+						continue
+					}
+					base := w.funcs[k[:j]]
+					if base == nil {
+						continue
+					}
+					pkgPrefix := base.Pkg.Pkg.Path() + "."
+					if c := w.funcs[pkgPrefix+k[j+1:]]; c != nil {
+						fn, specClosure = base, c
+						break
+					}
+					if c := w.funcs[k[j+1:]]; c != nil {
+						fn, specClosure = base, c
+						break
+					}
+				}
+			}
 			if fn == nil {
 				rep.Ungenerated = "function not found in the current tree"
 				results[i].rep = rep
 				return
 			}
 			vc := NewFuncVC(w, fn, fs)
+			vc.specClosure = specClosure
 			var verr error
 			func() {
 				defer func() {
